@@ -22,6 +22,7 @@ GEOMS = {
  'nested_same': 'M0,0 L6,0 L6,6 L0,6 Z M1,1 L5,1 L5,5 L1,5 Z', 'two_sq': 'M0,0 L2,0 L2,2 L0,2 Z M3,3 L5,3 L5,5 L3,5 Z',
  # degenerate
  'move_only': 'M1,1', 'moves': 'M1,1 M2,2', 'empty': '', 'line': 'M0,0 L5,5', 'collinear': 'M0,0 L2,2 L4,4 Z', 'point': 'M1,1 L1,1 Z',
+ 'tiny_sq': 'M0,0 L0.02,0 L0.02,0.02 L0,0.02 Z', 'tiny_tri': 'M1,1 L1.03,1 L1,1.02 Z', 'dot': 'M5,5 z', 'dots': 'M5,5 Z M1,1 z', 'dot_then_line': 'M5,5 z M0,0 L3,0',
  'cancel_evenodd': 'M0,0 L4,0 L4,4 L0,4 Z M0,0 L4,0 L4,4 L0,4 Z', 'zero_rect': 'M0,0 L4,0 L4,0 L0,0 Z', 'close_then_line': 'M0,5 h1 z L1,1 L2,2 z',
 }
 DEGENERATE = {'move_only', 'moves', 'empty', 'line', 'collinear', 'point', 'zero_rect'}
